@@ -39,8 +39,19 @@ def parsePlacement (j : Json) : Except String PlacementS := do
            profile := (← Ledger.optNat j "profile").getD 0, time := ← optInt j "time",
            pool := ← Ledger.optNat j "pool", worker := ← Ledger.optNat j "worker", strat := strat }
 
+def parseErr : String → Except String SErr
+  | "ValueError" => pure .valueError | "RuntimeError" => pure .runtimeError
+  | "AssertionError" => pure .assertionError | "AttributeError" => pure .attributeError
+  | "TypeError" => pure .typeError | "KeyError" => pure .keyError
+  | "NotImplementedError" => pure .notImplementedError | "IndexError" => pure .indexError
+  | e => throw s!"bad exception class {e}"
+
 def parseDecision (j : Json) : Except String Decision := do
-  return ⟨← mapM' parsePlacement (← fldArr j "placements"), ← fldInt j "runtime"⟩
+  let raised ← match fldOpt j "raised" with
+    | none => pure none
+    | some (Json.str e) => some <$> parseErr e
+    | some _ => pure none
+  return ⟨← mapM' parsePlacement (← fldArr j "placements"), ← fldInt j "runtime", raised⟩
 
 def parsePool (j : Json) : Except String (String × Pool) := do
   let ws ← mapM' Ledger.parseVec (← fldArr j "workers")
